@@ -60,20 +60,17 @@ def model (toks : List String) : String :=
     (do let (a, b, r) ← parse2 rest
         let (c, _) ← parseTy r
         pure (relStr (a.is b) ++ " " ++ relStr (b.is c) ++ " " ++ relStr (a.is c))).getD "bad-op"
+  | "lub" :: rest =>
+    (do let (a, b, r) ← parse2 rest
+        let (t, _) ← parseTy r
+        pure (relStr (a.is t) ++ " " ++ relStr (b.is t) ++ " " ++
+          (match typeSum a b with | some s => relStr (s.is t) | none => "fuel"))).getD "bad-op"
   | "laws" :: rest => (do let (a, b, _) ← parse2 rest; pure (lawsLine a b)).getD "bad-op"
   | _ => "bad-op"
 
-/-! ### Well-formedness (the domain of the union/intersection laws)
-
-A type is *well formed* when it is of the shape `TypeSum` produces from the type constants: every union has
-at least two alternatives, with strictly increasing `TypeID`s, none of which is itself a union or `Any`;
-struct field names are strictly sorted. The oracle demands reflexivity, idempotence, `NonNullable ⊆`,
-soundness of `Is` and transitivity on **all** types, and the union/intersection laws on well-formed ones. -/
-def altsOk : List Ty → Bool
-  | [] => true
-  | [a] => !a.isUnion && !a.isAny
-  | a :: b :: rest => !a.isUnion && !a.isAny && decide (a.id < b.id) && altsOk (b :: rest)
-
+/-! The oracle demands reflexivity, idempotence, `NonNullable ⊆`, soundness of `Is` and transitivity on **all**
+types, and the union/intersection laws on well-formed ones (`Ty.wf`: plain union alternatives with distinct
+`TypeID`s, strictly sorted struct field names — the shape `TypeSum` produces). -/
 mutual
 /-- structural equality of types (`Ty` is a nested inductive, `deriving BEq` is not available) -/
 def tyEq : Ty → Ty → Bool
@@ -90,18 +87,6 @@ def tyEqList : List Ty → List Ty → Bool
   | _, _ => false
 end
 instance : BEq Ty := ⟨tyEq⟩
-
-mutual
-def wf : Ty → Bool
-  | .list e => wf e
-  | .struct ns ts => strictSortedNames ns && ns.length == ts.length && wfList ts
-  | .tuple ts => wfList ts
-  | .union alts => decide (2 ≤ alts.length) && altsOk alts && wfList alts
-  | _ => true
-def wfList : List Ty → Bool
-  | [] => true
-  | t :: ts => wf t && wfList ts
-end
 
 /-- parse `; ty ; ty ; …` sections -/
 def splitSections (toks : List String) : List (List String) :=
@@ -140,7 +125,7 @@ def judge (toks : List String) (out : List String) : String :=
           if !shapeOk a b || !shapeOk b a then "known typesum-shape-mismatch sum-not-commutative"
           else "bad sum-not-commutative"
         else if good && (ia == "0" ∨ ia == "1" ∨ ib == "0" ∨ ib == "1") then "bad intersection-not-contained"
-        else if good && sS.isEmpty then "bad unparsable-impl-output"
+        else if good && (match parseTyAll sS with | some s => !wf s | none => true) then "bad sum-not-well-formed"
         else if sI.isEmpty then "bad unparsable-impl-output"
         else "ok"
     | _, _ => "bad unparsable-impl-output"
@@ -168,6 +153,11 @@ def judge (toks : List String) (out : List String) : String :=
           else "bad sum-loses-a-value"
         else "ok"
       | _, _, _ => "bad unparsable-impl-output"
+    | _, _ => "bad unparsable-impl-output"
+  | "lub" :: rest =>
+    match (do let (_, _, r) ← parse2 rest; let (t, _) ← parseTy r; pure t), out with
+    | some t, [at_, bt, st] =>
+      if wf t && at_ == "2" && bt == "2" && st ≠ "2" then "bad sum-not-least-upper-bound" else "ok"
     | _, _ => "bad unparsable-impl-output"
   | "trans" :: _ =>
     match out with
